@@ -470,6 +470,29 @@ Section Generic.
     - destruct cb, k; try discriminate; inversion Hc; reflexivity.
   Qed.
 
+  (* a CDevice2 with several cumulative ranges: they start at 0, are contiguous and end at the horizon *)
+  Theorem ctor_cdevice2_ranges n (b cb : pv A) raw l : ctor CC2 n b cb = Accept (raw, Some l) ->
+    (exists c, l = [c]) \/ (covers n l = true /\ contiguous_from (PNum (nofZ 0)) l = true).
+  Proof.
+    unfold ctor. destruct (device_bounds n b) as [raw'| |]; cbn [obind]; try discriminate.
+    destruct (table_of raw') as [t|]; [|destruct cb; simpl; discriminate].
+    cbv beta iota zeta.
+    assert (G : forall scb2, match scb2 with
+                  | Some [_] => Accept (raw', scb2)
+                  | Some l0 => if covers n l0 && contiguous_from (PNum (nofZ 0)) l0 then Accept (raw', scb2) else RaiseValueError
+                  | None => RaiseOther end = Accept (raw, Some l) ->
+                (exists c, l = [c]) \/ (covers n l = true /\ contiguous_from (PNum (nofZ 0)) l = true)).
+    { intros [[|c [|c' r]]|] Hc; try discriminate.
+      - inversion Hc; subst. left. now exists c.
+      - destruct (covers n (c :: c' :: r) && contiguous_from (PNum (nofZ 0)) (c :: c' :: r)) eqn:E; [|discriminate Hc].
+        inversion Hc; subst. right. now apply andb_prop in E. }
+    destruct (set_cbounds n (lows t) (highs t) cb) as [scb| |]; cbn [obind]; try discriminate.
+    destruct scb as [[|c0 r0]|]; cbv beta iota zeta.
+    - match goal with |- context [obind ?o _] => destruct o as [s2| |] end; cbn [obind]; try discriminate. apply G.
+    - cbn [obind]. exact (G (Some (c0 :: r0))).
+    - match goal with |- context [obind ?o _] => destruct o as [s2| |] end; cbn [obind]; try discriminate. apply G.
+  Qed.
+
   (* ------------------------------------------------------------------ accepted parameter values are stored unchanged *)
   Lemma stored_scalars (v w : A) :
     CDevice_a_stored v = v /\ SDevice_c1_stored w v = v /\ SDevice_c2_stored w v = v /\ SDevice_c3_stored v = v /\
